@@ -1052,6 +1052,8 @@ fn run_on_this_thread(spec: &ServerSpec) -> ServerRun {
     drop(g);
     polytune_server_core::verif::thread::set_spawner(None);
     polytune_http_server::verif::set_machine_observer(None);
+    // break the reference cycle hub -> routers -> node state -> HTTP client -> transport -> hub
+    hub.lock().unwrap().routers.clear();
     // dropping the runtime drops all remaining tasks
     drop(_guard);
     drop(rt);
@@ -1234,4 +1236,11 @@ fn finish_call(hub: &SharedHub, idx: usize, ok: bool, detail: String) {
     g.calls[idx].ok = Some(ok);
     g.calls[idx].detail = detail.clone();
     g.log.push(format!("{what} p{p}/c{c} -> {}", if ok { "Ok".to_string() } else { format!("Err({})", detail.chars().take(80).collect::<String>()) }));
+}
+
+/// memory probe: build one HTTP node and drop it
+pub fn node_probe() {
+    let hub: SharedHub = Arc::new(Mutex::new(Hub::default()));
+    let node = polytune_http_server::verif::Node::new(Arc::new(SimTransport { me: 0, hub }), 1, None);
+    drop(node);
 }
